@@ -132,6 +132,10 @@ CallSiteChecks ==
   \* generator imported and initialiser not: only (srand, open)
   /\ DOMAIN W332(P, <<<<"srand", "rand">>, <<"srand", "open">>, <<"open", "setuid">>>>) = {{"srand", "open"}}
   /\ WellFormed(P) /\ UniqueExternNames(P)
+  \* a conditionally executed call (second jump after a conditional branch) is a call site like any other
+  /\ LET Q == Proj(<<Sub("sub_c", "c", <<Blk("cb0", <<>>, <<JCb("cj0", "cb1", EV("ZF")), JCall("cc0", "extern_open", "cb1")>>),
+                                          Blk("cb1", <<>>, <<JCall("cc1", "extern_open", "cb0")>>)>>)>>, Externs).program
+     IN  BagSize(W676(Q, <<"open">>)) = 2
 
 VARIABLE x
 Init == x = 0
